@@ -27,6 +27,33 @@ Theorem C04_outstanding_exact : forall ops p, valid ops = true ->
 Proof. exact outstanding_exact. Qed.
 Print Assumptions C04_outstanding_exact.
 
+(* the report item itself: "no leaks", the footer total and the malloc note are those of the outstanding set of the period,
+   the entries are exactly that set *)
+Theorem C04_report_item_exact : forall ops p, valid ops = true ->
+  let st := c_exec d_init ops in let out := filter (applies p) (a_recs (a_exec a_init ops)) in
+  exists l, Permutation l out /\
+    snd (c_step st (OpReport p)) =
+    Some (OR (match out with [] => true | _ => false end) false (N.of_nat (length out)) (map entry_of l) (existsb is_malloc out)).
+Proof. exact report_item_exact. Qed.
+Print Assumptions C04_report_item_exact.
+
+(* an allocation or reallocation whose underlying allocator call fails (the block, or the separate bookkeeping record) changes
+   nothing: the abstract map is untouched, the table still holds exactly that map with the same counters, and every total and
+   report answers as before (reallocMemory: the record taken out is put back) *)
+Theorem C04_failed_request_changes_nothing : forall st a o, R st a -> is_failed_request o = true ->
+  let st' := fst (c_step st o) in
+  fst (a_step a o) = a /\ R st' a /\ Permutation (flat (d_tbl st')) (flat (d_tbl st)) /\
+  d_period st' = d_period st /\ d_stage st' = d_stage st /\ d_seq st' = d_seq st /\
+  (forall p, t_total p (d_tbl st') = t_total p (d_tbl st)) /\
+  (forall p, exists l l', d_report p st = Some l /\ d_report p st' = Some l' /\ Permutation l' l).
+Proof. exact failed_request_changes_nothing. Qed.
+Print Assumptions C04_failed_request_changes_nothing.
+
+(* the code before repair 3db681c (record of the still valid block dropped after a failed realloc) does not have that property *)
+Theorem C04_realloc_failed_old_refuted : ~ (forall st a x, R st a -> R (fst (d_realloc_failed_old st x)) a).
+Proof. exact realloc_failed_old_refuted. Qed.
+Print Assumptions C04_realloc_failed_old_refuted.
+
 (* releasing address a removes exactly the node with that address -- all others keep their place, same-bucket neighbours
    before and after it included -- and answers "not found" iff a is not outstanding *)
 Theorem C04_release_exact : forall a t, Inv t ->
